@@ -15,7 +15,11 @@ From CPF Require Export Engine.Eval.
 From CPF Require Import gen.Tables.
 Open Scope bs_scope.
 
-Definition max_depth : nat := 16.
+(* predicates being expanded are tracked by "name/arity"; a recursive call is never expanded.  The
+   fuel only serves Coq's termination check: nesting never exceeds the number of declarations. *)
+Definition fuel_of (decls : list pred_decl) : nat := S (length decls).
+Definition call_key (f : bytes) (arity : nat) : bytes := f ++ "/" ++ dec (N.of_nat arity).
+Definition is_active (key : bytes) (active : list bytes) : bool := existsb (bytes_eqb key) active.
 
 (* first declaration with this name and arity (declaration order) *)
 Definition find_decl (decls : list pred_decl) (f : bytes) (arity : nat) : option pred_decl :=
@@ -27,7 +31,7 @@ Definition subst := list (bytes * xexpr).
 Definition head_of (sub : subst) (x : bytes) : xexpr :=
   match lookup x sub with Some a => a | None => XVar x end.
 
-Fixpoint inline (d : nat) (decls : list pred_decl) : subst -> expr -> xexpr :=
+Fixpoint inline (d : nat) (decls : list pred_decl) (active : list bytes) : subst -> expr -> xexpr :=
   fix go (sub : subst) (e : expr) {struct e} : xexpr :=
     match e with
     | EVal v => XVal v
@@ -41,12 +45,14 @@ Fixpoint inline (d : nat) (decls : list pred_decl) : subst -> expr -> xexpr :=
            end) ms (head_of sub x)
     | ECall f args =>
         let args' := List.map (go sub) args in
+        let key := call_key f (length args) in
         match d with
         | S d' =>
+            if is_active key active then XCall (head_of sub f) args' else
             match find_decl decls f (length args) with
             | Some decl =>
-                XParen (inline d' decls (combine (List.map snd (pd_params decl)) (List.map XParen args'))
-                                 (pd_body decl))
+                XParen (inline d' decls (key :: active)
+                          (combine (List.map snd (pd_params decl)) (List.map XParen args')) (pd_body decl))
             | None => XCall (head_of sub f) args'
             end
         | O => XCall (head_of sub f) args'
@@ -58,7 +64,7 @@ Fixpoint inline (d : nat) (decls : list pred_decl) : subst -> expr -> xexpr :=
 
 Definition condition (q : query) : option xexpr :=
   match q_where q with
-  | Some e => Some (inline max_depth (q_preds q) [] e)
+  | Some e => Some (inline (fuel_of (q_preds q)) (q_preds q) [] [] e)
   | None => None
   end.
 
@@ -86,7 +92,7 @@ Definition tsubst := list (bytes * bytes).   (* formal -> "( <argument text> )" 
 Definition head_text (sub : tsubst) (x : bytes) : bytes :=
   match lookup x sub with Some t => t | None => x end.
 
-Fixpoint emit (d : nat) (decls : list pred_decl) : tsubst -> expr -> list bytes :=
+Fixpoint emit (d : nat) (decls : list pred_decl) (active : list bytes) : tsubst -> expr -> list bytes :=
   fix go (sub : tsubst) (e : expr) {struct e} : list bytes :=
     match e with
     | EVal v => [value_text v]
@@ -103,11 +109,12 @@ Fixpoint emit (d : nat) (decls : list pred_decl) : tsubst -> expr -> list bytes 
         let expanded :=
           match d with
           | S d' =>
+              if is_active (call_key f (length args)) active then None else
               match find_decl decls f (length args) with
               | Some decl =>
                   let inner := combine (List.map snd (pd_params decl))
                                  (List.map (fun a => "( " ++ join " " (go sub a) ++ " )") args) in
-                  Some ("(" :: emit d' decls inner (pd_body decl) ++ [")"])
+                  Some ("(" :: emit d' decls (call_key f (length args) :: active) inner (pd_body decl) ++ [")"])
               | None => None
               end
           | O => None
@@ -123,7 +130,7 @@ Fixpoint emit (d : nat) (decls : list pred_decl) : tsubst -> expr -> list bytes 
 
 Definition expanded_condition (q : query) : bytes :=
   match q_where q with
-  | Some e => join " " (emit max_depth (q_preds q) [] e)
+  | Some e => join " " (emit (fuel_of (q_preds q)) (q_preds q) [] [] e)
   | None => []
   end.
 
@@ -181,7 +188,7 @@ Definition sel_xexpr (s : sel_item) : option xexpr :=
                    match ms with
                    | [] => acc
                    | MVar f :: r => chain r (XMember acc f)
-                   | MCall f args :: r => chain r (XCall (XMember acc f) (List.map (inline 0 [] []) args))
+                   | MCall f args :: r => chain r (XCall (XMember acc f) (List.map (inline 0 [] [] []) args))
                    end) ms (XVar x))
       | MCall _ _ => None
       end
@@ -214,7 +221,7 @@ Definition row (q : query) (t : list node) : list (option val) :=
   List.map (sel_value (tuple_env q t)) (q_select q).
 
 (* ---------- specification: predicate calls bind their formals to the argument entities ---------- *)
-Definition of_expr : expr -> xexpr := inline 0 [] [].
+Definition of_expr : expr -> xexpr := inline 0 [] [] [].
 
 (* the entity an argument denotes: an alias (or an enclosing predicate's formal) *)
 Definition arg_entity (env : tenv) (a : expr) : option (bytes * node) :=
@@ -233,7 +240,7 @@ Fixpoint all_some {A} (l : list (option A)) : option (list A) :=
 (* three-valued, left-to-right, short-circuit; conditions are boolean combinations of atoms;
    an atom is any call-free expression (evaluated by [eval]) or a predicate call.  A predicate
    body sees its own formal parameters and the FROM aliases (env0), not its caller's formals. *)
-Fixpoint seval (d : nat) (decls : list pred_decl) (env0 : tenv) : tenv -> expr -> res :=
+Fixpoint seval (d : nat) (decls : list pred_decl) (active : list bytes) (env0 : tenv) : tenv -> expr -> res :=
   fix go (env : tenv) (e : expr) {struct e} : res :=
     match e with
     | EParen a => go env a
@@ -260,9 +267,12 @@ Fixpoint seval (d : nat) (decls : list pred_decl) (env0 : tenv) : tenv -> expr -
     | ECall f args =>
         match d with
         | S d' =>
+            if is_active (call_key f (length args)) active then OutOfFragment   (* recursion has no meaning *)
+            else
             match find_decl decls f (length args), all_some (List.map (arg_entity env) args) with
             | Some decl, Some ents =>
-                seval d' decls env0 (combine (List.map snd (pd_params decl)) ents ++ env0) (pd_body decl)
+                seval d' decls (call_key f (length args) :: active) env0
+                      (combine (List.map snd (pd_params decl)) ents ++ env0) (pd_body decl)
             | _, _ => OutOfFragment
             end
         | O => OutOfFragment
@@ -274,7 +284,7 @@ Definition spec_accepted (q : query) (t : list node) : verdict :=
   match q_where q with
   | None => Accept
   | Some e =>
-      match seval max_depth (q_preds q) (tuple_env q t) (tuple_env q t) e with
+      match seval (fuel_of (q_preds q)) (q_preds q) [] (tuple_env q t) (tuple_env q t) e with
       | Val (VB true) => Accept
       | OutOfFragment => Unknown
       | _ => Reject
